@@ -72,7 +72,7 @@ func genDefs(r *RNG) *dCase {
 		var hidden []int // private/protected instance methods of this class
 		nm := 2 + r.Intn(5)
 		for k := 0; k < nm; k++ {
-			form := Pick(r, []string{"inst", "inst", "inst", "self", "meta", "endless", "multi", "endless-multi", "twin"})
+			form := Pick(r, []string{"inst", "inst", "inst", "self", "meta", "endless", "multi", "endless-multi", "twin", "setter"})
 			if isModule && form != "self" {
 				form = Pick(r, []string{"inst", "self"})
 			}
@@ -104,6 +104,14 @@ func genDefs(r *RNG) *dCase {
 				m.Row = row()
 				emit("  def " + m.Name + "(a = 1)")
 				emit("    " + ret)
+				emit("  end")
+			case "setter":
+				// an attribute writer written out: a method like any other
+				m.Name = newName("sv") + "="
+				m.Vis = vis
+				m.Row = row()
+				emit("  def " + m.Name + "(a)")
+				emit("    @held = a")
 				emit("  end")
 			case "endless":
 				m.Name = newName("em")
@@ -177,6 +185,8 @@ func genDefs(r *RNG) *dCase {
 				topCalls = append(topCalls, pending{mi, cname + "." + m.Name})
 			case isModule:
 				// an instance method of a module: called through an including class below
+			case form == "setter":
+				// (assignment syntax: no call row is hovered for it)
 			case m.Vis == "public":
 				topCalls = append(topCalls, pending{mi, "o" + strings.ToLower(cname) + "." + m.Name})
 			default:
